@@ -319,5 +319,24 @@ async fn linger(stream: &mut TcpStream, code: u16) {
         // "processing" would; the client sees no final response.
         tokio::time::sleep(Duration::from_secs(600)).await;
     }
-    let _ = stream.shutdown().await;
+    // The response said `Connection: close`: wait (in real time, the clock is virtual) for the
+    // client to read it and close its side, then close with a reset. That way neither side keeps
+    // a TIME_WAIT socket: thousands of episodes per minute would otherwise exhaust the ephemeral
+    // port range (every episode binds fresh listeners).
+    let t0 = std::time::Instant::now();
+    let mut buf = [0u8; 256];
+    loop {
+        match stream.try_read(&mut buf) {
+            Ok(0) => break,
+            Ok(_) => continue,
+            Err(e) if e.kind() == std::io::ErrorKind::WouldBlock => {
+                if t0.elapsed() > std::time::Duration::from_millis(200) {
+                    break;
+                }
+                tokio::task::yield_now().await;
+            }
+            Err(_) => break,
+        }
+    }
+    let _ = stream.set_linger(Some(std::time::Duration::from_secs(0)));
 }
